@@ -38,6 +38,7 @@ import json  # noqa: E402
 import math  # noqa: E402
 import os  # noqa: E402
 import random  # noqa: E402
+import shutil  # noqa: E402
 import tempfile  # noqa: E402
 import time  # noqa: E402
 from pathlib import Path  # noqa: E402
@@ -106,14 +107,28 @@ def gen_constants(scenarios, *, dev, ops, max_ops, call_sizes, probe_sizes, seed
     return mod, consts
 
 
-def run_gen(ctx, label, scenarios, *, dev=(), ops=ALL_OPS, max_ops, call_sizes=(0, 3), probe_sizes=(2, 7),
-            invariants=IDEAL_INVS, print_hist=False, liveness=True, coverage=False):
+def gen_job(label, scenarios, *, dev=(), ops=ALL_OPS, max_ops, call_sizes=(0, 3), probe_sizes=(2, 7),
+            invariants=IDEAL_INVS, print_hist=False, liveness=True, coverage=False) -> dict:
+    """A TLC run of RandomGen, described; executed by run_jobs (several at a time)."""
     mod, consts = gen_constants(scenarios, dev=dev, ops=ops, max_ops=max_ops, call_sizes=call_sizes, probe_sizes=probe_sizes)
     cfg = tlc.make_cfg(constants=consts, invariants=list(invariants) + (["PrintDone"] if print_hist else []),
                        properties=["Termination"] if liveness else [], deadlock=True)
-    res = tlc.run("RandomGen_MC", cfg, coverage=coverage, extra_modules={"RandomGen_MC": mod}, timeout=3000)
-    ctx.add_tlc(label, res, constants=dict(scenarios=len(scenarios), MaxOps=max_ops, Deviations=sorted(dev), Ops=list(ops)))
-    return res
+    return dict(label=label, cfg=cfg, mod=mod, coverage=coverage,
+                info=dict(scenarios=len(scenarios), MaxOps=max_ops, Deviations=sorted(dev), Ops=list(ops)))
+
+
+def run_jobs(ctx, jobs: list, parallel: int = 4) -> list:
+    from concurrent.futures import ThreadPoolExecutor
+
+    def one(job):
+        return tlc.run("RandomGen_MC", job["cfg"], coverage=job["coverage"], extra_modules={"RandomGen_MC": job["mod"]},
+                       timeout=3000, workers=4)
+
+    with ThreadPoolExecutor(max_workers=parallel) as ex:
+        results = list(ex.map(one, jobs))
+    for job, res in zip(jobs, results):
+        ctx.add_tlc(job["label"], res, constants=job["info"])
+    return results
 
 
 # ---------------------------------------------------------------------------
@@ -131,6 +146,13 @@ class Node:
     def __init__(self, entry=None) -> None:
         self.entry = entry
         self.children: dict = {}
+
+
+def printed_hist(res) -> list:
+    """PrintT(<<"hist", sc, hist>>) values of a TLC run, parsed once."""
+    if getattr(res, "_c16_hist", None) is None:
+        res._c16_hist = res.printed("hist")
+    return res._c16_hist
 
 
 def build_tries(printed) -> dict:
@@ -181,7 +203,7 @@ def traced_class(base):
 
     class Traced(base):  # type: ignore[misc, valid-type]
         def reseed(self, seed=None):
-            self.__dict__.setdefault("_vlog", []).append(("reseed", 0 if seed is None else int(seed), None))
+            self.__dict__.setdefault("_vlog", []).append(("reseed", None if seed is None else int(seed), None))
             return super().reseed(seed)
 
         def __call__(self, probe_size):
@@ -268,7 +290,8 @@ class World:
         take_log(g)
         return g
 
-    def centers(self):
+    def centers(self, n: int = 1):
+        """n patch centres inside the footprint (one centre: no patch can stay empty)."""
         if self._centers is None:
             if self.kind == "box":
                 r1, r2, d1, d2 = self.window
@@ -277,8 +300,8 @@ class World:
                 pix = sorted(self.hp_unmasked)
                 lon, lat = fakehealpy.pix2ang(self.hp_nside, np.array([pix[0], pix[-1]]), nest=True, lonlat=True)
                 pts = [[lon[0], lat[0]], [lon[1], lat[1]]]
-            self._centers = self.yaw.AngularCoordinates(np.deg2rad(np.array(pts)))
-        return self._centers
+            self._centers = np.deg2rad(np.array(pts))
+        return self.yaw.AngularCoordinates(self._centers[:n])
 
     # -- tokens ---------------------------------------------------------
     def realisable(self, tok) -> bool:
@@ -394,6 +417,10 @@ def probe_rejection(exc) -> bool:
     return isinstance(exc, ValueError) and "probe_size" in str(exc)
 
 
+def empty_patch_rejection(exc) -> bool:
+    return isinstance(exc, ValueError) and "contains no data" in str(exc)
+
+
 class State:
     """The real objects a history acts on."""
 
@@ -426,7 +453,7 @@ def log_events(world: World, log) -> list:
     out = []
     for kind, arg, _ in log:
         if kind == "reseed":
-            out.append(("reseed", world.seedinv.get(arg, -1) if arg != 0 else 0))
+            out.append(("reseed", 0 if arg is None else world.seedinv.get(arg, -1)))
         else:
             out.append(("call", arg))
     return out
@@ -599,12 +626,18 @@ def exec_entry(world: World, st: State, e: dict, sc: dict, F: Findings, path_ops
                 if sc["p"]:
                     kwargs["probe_size"] = sc["p"]
             path = world.root / f"cat{world.idx}"
+            shutil.rmtree(path, ignore_errors=True)
             counters["from_random"] = counters.get("from_random", 0) + 1
             eff_probe = sc["p"] if sc["p"] >= 10 * sc["k"] else def_probe(sc["k"]) if sc["k"] else 0
             try:
                 cat = lib(world.yaw.Catalog.from_random, path, st.gen, sc["N"], allow=(ValueError,), **kwargs)
                 real_out = "ok"
             except ValueError as exc:
+                if empty_patch_rejection(exc) and (sc["N"] == 0 or sc["k"] > 1):
+                    # documented refusal (CatalogWriter.finalize): a patch without data; the property leaves it open
+                    take_log(st.gen)
+                    counters["refused_empty_patch"] = counters.get("refused_empty_patch", 0) + 1
+                    return False
                 if not probe_rejection(exc):
                     raise LibError(exc) from exc
                 real_out = "ValueError"
@@ -752,10 +785,10 @@ def make_worlds(yaw, root: Path, seed: int) -> dict:
 
 def history_scenarios(quick: bool) -> list:
     sc = [dict(kind="box", N=5, C=2, k=0, p=0),      # N = 2C+1
-          dict(kind="box", N=4, C=2, k=0, p=0),      # N = 2C
-          dict(kind="box", N=12, C=5, k=1, p=10)]    # patch_num with a user probe
+          dict(kind="box", N=12, C=6, k=1, p=10)]    # patch_num with a user probe, N = 2C
     if not quick:
-        sc += [dict(kind="box", N=2, C=3, k=0, p=0),     # N < C
+        sc += [dict(kind="box", N=4, C=2, k=0, p=0),     # N = 2C
+               dict(kind="box", N=2, C=3, k=0, p=0),     # N < C
                dict(kind="box", N=12, C=0, k=2, p=0),    # default chunksize, library default probe
                dict(kind="box", N=20, C=7, k=2, p=20)]
     return sc
@@ -799,44 +832,54 @@ def model_check(ctx, observed: tuple) -> dict:
     quick = ctx.quick
     depth = 4 if quick else 5
     hsc = history_scenarios(quick)
-    # 1. the ideal design over all histories
-    res = run_gen(ctx, f"RandomGen ideal, all histories of <= {depth} operations", hsc, max_ops=depth, coverage=True,
-                  print_hist=not observed)
-    ctx.require(res.ok, f"RandomGen ideal design violated in TLC: {res.error_kind} {res.error_name}")
-    for act in ("DrawOp", "Reseed", "NewReader", "Probe", "IterStart", "NextChunk", "StopPass", "Abandon", "FRStart",
-                "FRCenters", "FRIter", "FRNext", "FRStop"):
-        ctx.require(res.coverage.get(act, (0, 0))[1] > 0, f"RandomGen action {act} never taken (vacuous)")
-    hist_res = res
     ssc = size_scenarios(quick)
-    res = run_gen(ctx, "RandomGen ideal, size sweep (N x chunksize x patch_num x probe_size)", ssc, max_ops=2,
-                  ops=("from_random", "reader", "iter", "probe"), probe_sizes=(3, 10), print_hist=not observed)
-    ctx.require(res.ok, f"RandomGen ideal design violated on the size sweep: {res.error_kind} {res.error_name}")
-    size_res = res
-    # 2. the design variant the tree implements for probes larger than the catalog
+    size_ops = ("from_random", "reader", "iter", "probe")
+    invs_obs = [i for i in IDEAL_INVS if i != "CreateNeverRejected"] if observed else IDEAL_INVS
+    hp_sc = [dict(kind="healpix", N=5, C=2, k=0, p=0), dict(kind="healpix", N=12, C=5, k=1, p=10)]
+    jobs = [
+        # 1. the ideal design over all histories / over the size sweep
+        gen_job(f"RandomGen ideal, all histories of <= {depth} operations", hsc, max_ops=depth, coverage=True, print_hist=not observed),
+        gen_job("RandomGen ideal, size sweep (N x chunksize x patch_num x probe_size)", ssc, max_ops=2, ops=size_ops,
+                probe_sizes=(3, 10), print_hist=not observed),
+        # healpix scenarios (replayed on the real HealPixRandoms)
+        gen_job("RandomGen, healpix scenarios (ideal generator)", hp_sc, dev=observed, max_ops=3 if quick else 4, print_hist=True,
+                invariants=invs_obs),
+        gen_job("RandomGen variant ProbeClampedToRecords (admissible alternative)", [DEVIATIONS["ProbeBoundedByRecords"][0]],
+                dev=("ProbeClampedToRecords",), max_ops=2, liveness=False),
+    ]
     if observed:
-        invs = [i for i in IDEAL_INVS if i != "CreateNeverRejected"]
-        hist_res = run_gen(ctx, f"RandomGen with {'+'.join(observed)} (as implemented), histories", hsc, dev=observed,
-                           max_ops=depth, invariants=invs, print_hist=True)
-        ctx.require(hist_res.ok, f"as-implemented variant violates {hist_res.error_name} (only CreateNeverRejected may fail)")
-        size_res = run_gen(ctx, f"RandomGen with {'+'.join(observed)} (as implemented), size sweep", ssc, dev=observed, max_ops=2,
-                           ops=("from_random", "reader", "iter", "probe"), probe_sizes=(3, 10), invariants=invs, print_hist=True)
-        ctx.require(size_res.ok, f"as-implemented variant violates {size_res.error_name} on the size sweep")
+        # 2. the design variant the tree implements for probes larger than the catalog
+        jobs += [
+            gen_job(f"RandomGen with {'+'.join(observed)} (as implemented), histories", hsc, dev=observed, max_ops=depth,
+                    invariants=invs_obs, print_hist=True),
+            gen_job(f"RandomGen with {'+'.join(observed)} (as implemented), size sweep", ssc, dev=observed, max_ops=2, ops=size_ops,
+                    probe_sizes=(3, 10), invariants=invs_obs, print_hist=True),
+        ]
     # 3. every deviation yields its counterexample
-    cex = {}
     for name, (sc, ops, expect) in DEVIATIONS.items():
-        res = run_gen(ctx, f"RandomGen deviation {name}", [sc], dev=(name,), ops=ops, max_ops=3, liveness=False)
+        jobs.append(gen_job(f"RandomGen deviation {name}", [sc], dev=(name,), ops=ops, max_ops=3, liveness=False))
+    results = run_jobs(ctx, jobs)
+    ideal_hist, ideal_size, healpix, clamped = results[:4]
+    ctx.require(ideal_hist.ok, f"RandomGen ideal design violated in TLC: {ideal_hist.error_kind} {ideal_hist.error_name}")
+    for act in ("DrawOp", "Reseed", "NewReader", "Probe", "IterStart", "NextChunk", "StopPass", "Abandon", "FRStart",
+                "FRCenters", "FRIterStep", "FRNext", "FRStop"):
+        ctx.require(ideal_hist.coverage.get(act, (0, 0))[1] > 0, f"RandomGen action {act} never taken (vacuous)")
+    ctx.require(ideal_size.ok, f"RandomGen ideal design violated on the size sweep: {ideal_size.error_kind} {ideal_size.error_name}")
+    ctx.require(healpix.ok, f"RandomGen healpix scenarios violated: {healpix.error_name}")
+    ctx.require(clamped.ok, "alternative design ProbeClampedToRecords violates an invariant")
+    hist_res, size_res = ideal_hist, ideal_size
+    k = 4
+    if observed:
+        hist_res, size_res = results[4:6]
+        k = 6
+        ctx.require(hist_res.ok, f"as-implemented variant violates {hist_res.error_name} (only CreateNeverRejected may fail)")
+        ctx.require(size_res.ok, f"as-implemented variant violates {size_res.error_name} on the size sweep")
+    cex = {}
+    for (name, (sc, ops, expect)), res in zip(DEVIATIONS.items(), results[k:]):
         ctx.require(not res.ok and res.error_kind == "invariant" and res.error_name in expect,
                     f"deviation {name} yields no counterexample (stale model): {res.error_kind} {res.error_name}")
         cex[name] = dict(scenario=sc, invariant=res.error_name, hist=res.trace[-1]["state"]["hist"])
-    res = run_gen(ctx, "RandomGen variant ProbeClampedToRecords (admissible alternative)", [DEVIATIONS["ProbeBoundedByRecords"][0]],
-                  dev=("ProbeClampedToRecords",), max_ops=2, liveness=False)
-    ctx.require(res.ok, "alternative design ProbeClampedToRecords violates an invariant")
-    # healpix: ideal histories (replayed on the real HealPixRandoms)
-    hp_sc = [dict(kind="healpix", N=5, C=2, k=0, p=0), dict(kind="healpix", N=12, C=5, k=1, p=10)]
-    res = run_gen(ctx, "RandomGen ideal, healpix scenarios", hp_sc, dev=observed, max_ops=3 if quick else 4, print_hist=True,
-                  invariants=[i for i in IDEAL_INVS if i != "CreateNeverRejected"] if observed else IDEAL_INVS)
-    ctx.require(res.ok, f"RandomGen healpix scenarios violated: {res.error_name}")
-    return dict(hist=hist_res, size=size_res, cex=cex, healpix=res)
+    return dict(hist=hist_res, size=size_res, cex=cex, healpix=healpix)
 
 
 # ---------------------------------------------------------------------------
@@ -895,7 +938,7 @@ def replay_counterexamples(ctx, worlds, cex) -> dict:
 
 
 def replay_histories(ctx, worlds, res, label, *, world_pick, deadline=None) -> dict:
-    tries = build_tries(res.printed("hist"))
+    tries = build_tries(printed_hist(res))
     ctx.require(bool(tries), f"TLC printed no history for {label}")
     counters: dict = {}
     budget = dict(deadline=deadline, cut=False)
@@ -914,7 +957,7 @@ def binding_selfcheck(ctx, worlds, res) -> None:
     """A deliberately corrupted expectation must be rejected by the driver."""
     world = worlds["box"][0]
     done = {}
-    for sc, hist in res.printed("hist"):
+    for sc, hist in printed_hist(res):
         for e in hist:
             if e["op"] == "from_random" and e["out"] == "ok" and len(e["res"]) >= 2 and "tok" not in done:
                 bad = dict(e)
@@ -1132,10 +1175,14 @@ def record_traces(ctx, worlds, rng, ntraces: int, big: bool) -> list:
                             kwargs["probe_size"] = sc["p"]
                     else:
                         kwargs["patch_centers"] = world.centers()
+                    shutil.rmtree(world.root / f"tr{world.idx}", ignore_errors=True)
                     try:
                         cat = lib(world.yaw.Catalog.from_random, world.root / f"tr{world.idx}", st.gen, sc["N"], allow=(ValueError,), **kwargs)
                         nrec = int(sum(cat.get_num_records()))
                     except ValueError as exc:
+                        if empty_patch_rejection(exc) and sc["k"] > 1:
+                            take_log(st.gen)
+                            break  # admissible refusal; the trace ends here
                         if not probe_rejection(exc):
                             raise LibError(exc) from exc
                         rec["out"] = "ValueError"
@@ -1295,7 +1342,8 @@ def pool_runs(ctx, worlds, rng) -> None:
         try:
             for W in (1, 2 if i % 2 == 0 else 3):
                 g = world.new_gen(world.seedmap[1])
-                cat = lib(world.yaw.Catalog.from_random, world.root / f"pool{W}", g, N, patch_centers=world.centers(), chunksize=C,
+                shutil.rmtree(world.root / f"pool{W}", ignore_errors=True)
+                cat = lib(world.yaw.Catalog.from_random, world.root / f"pool{W}", g, N, patch_centers=world.centers(2), chunksize=C,
                           max_workers=W, overwrite=True)
                 rec = [p.load_data() for p in cat.values()]
                 recs[W] = (int(sum(cat.get_num_records())), sorted_rows(np.concatenate(rec)))
@@ -1365,7 +1413,7 @@ def run(ctx) -> None:
         per = 1 if quick else 2
         c2 = replay_histories(ctx, worlds, mc["hist"], "histories", deadline=deadline,
                               world_pick=lambda i, sc: [worlds["box"][(i * 3 + j * 5 + ctx.seed) % (8 if sc["k"] else nbox)] for j in range(per)])
-        for sc, hist in mc["hist"].printed("hist")[:: max(1, len(mc["hist"].printed("hist")) // 3)][:3]:
+        for sc, hist in printed_hist(mc["hist"])[:: max(1, len(printed_hist(mc["hist"])) // 3)][:3]:
             ctx.sample(dict(scenario=sc, history=[op_text(e, sc) for e in hist],
                             expected_tokens=[[list(t) for t in e["res"]] for e in hist][-1]))
         c3 = replay_histories(ctx, worlds, mc["healpix"], "healpix histories",
